@@ -163,6 +163,7 @@ func init() {
 
 type rtpCase struct {
 	P     pktJ            `json:"p"`
+	P2    *pktJ           `json:"p2"`
 	RawP  json.RawMessage `json:"-"`
 	Tags  json.RawMessage `json:"tags"`
 	Class string          `json:"class"`
@@ -223,6 +224,48 @@ func runC01(raw json.RawMessage, w *Writer) {
 	}
 	e["hures"], e["hn"], e["hout"] = hures, hn, projHeader(hout)
 	w.Emit(e)
+	if c.P2 == nil {
+		return
+	}
+	// object lifecycle: the SAME packet object is changed in place into another well-formed value and
+	// marshalled again; the bytes must be those of a freshly built packet with that value
+	twin, err := buildPacket(*c.P2)
+	if err != nil {
+		return
+	}
+	var again, want2 []byte
+	var e1, e2 error
+	size2 := -1
+	r2, _ := guard(func() {
+		rebuildInPlace(p, *c.P2)
+		size2 = p.MarshalSize()
+		again, e1 = p.Marshal()
+		want2, e2 = twin.Marshal()
+	})
+	w.Emit(Ev{"ev": "remarshal", "res": outcome(r2, e1), "twin_res": outcome("ok", e2), "size": size2, "bytes": ints(again), "twin": ints(want2),
+		"proj": projPacket(p), "twin_proj": projPacket(twin)})
+}
+
+// rebuildInPlace turns the existing object into the value j using only the public API.
+func rebuildInPlace(p *rtp.Packet, j pktJ) {
+	for _, id := range p.GetExtensionIDs() {
+		_ = p.DelExtension(id)
+	}
+	p.Version, p.Padding, p.Marker, p.PayloadType = uint8(j.Ver), j.Pad, j.M, uint8(j.Pt)
+	p.SequenceNumber, p.Timestamp, p.SSRC = uint16(j.Seq), u32of(j.Ts), u32of(j.Ssrc)
+	p.CSRC = p.CSRC[:0]
+	for _, cs := range j.Csrc {
+		p.CSRC = append(p.CSRC, u32of(cs))
+	}
+	p.Extension = j.X
+	if j.X {
+		p.ExtensionProfile = uint16(j.Profile)
+		for _, e := range j.Exts {
+			_ = p.SetExtension(uint8(e.ID), bytesOf(e.Val))
+		}
+	}
+	p.Payload = append(p.Payload[:0], bytesOf(j.Payload)...)
+	p.PaddingSize = byte(j.Padsize)
 }
 
 // ---- C04 -------------------------------------------------------------------
